@@ -112,6 +112,12 @@ def run(rep, tier):
     # this input": the interpreter-side context rules of C09 are obligations here too
     import props.c09 as c09
     c09.run(rep, tier, parts=("interp", "ctor"))
+    # the call and exit arms are part of what the interpreter computes: their frame rules (C07, interpreter side) are obligations here too
+    import props.c07 as c07
+    c07.run(rep, tier, parts=("interp",))
+    # the helper-call arm is part of the interpreter's semantics: C08's interpreter-side rule is an obligation here too
+    import props.c08 as c08
+    c08.run(rep, tier, parts=("interp",))
     rep.trust("rustc front end / typed THIR", "core integer primitives (wrapping_*, to_le/to_be, read/write_unaligned)",
               "isaref.py: the ISA reference written from the specification")
     rep.assume("little-endian target", "results that depend on never-written registers/stack or raw addresses are outside the claim")
